@@ -86,23 +86,78 @@ def mol_view(mol):
 
 
 def snapshot(mol):
-    """everything the property says stays / may change, as plain data"""
-    vel = mol.atoms_velocities
-    return {"pos": np.array(mol.atoms_positions, dtype=float),
-            "vel": None if vel is None else np.array(vel, dtype=float),
-            "ids": list(mol.atoms_ids), "names": [a.name for a in mol], "resnames": list(mol.resnames),
-            "resids": list(mol.resids), "atom_resnames": [a.resname for a in mol], "n": len(mol)}
+    """everything the property says stays / may change, as plain data.  Read from the two halves of the object (the
+    MoleculeTop and the Residues) WITHOUT building Atom views: a molecule whose halves were made inconsistent cannot even
+    be iterated (Atom() raises IOError), and that must be reported, not crash the harness"""
+    gro = [a for r in mol.residues for a in r]
+    vels = [a.velocity for a in gro]
+    top = [(t.name, t.resname, int(t.resid), int(t.index), tuple(sorted(int(b) for b in t.bonds))) for t in mol.molecule_top]
+    return {"pos": np.array([a.position for a in gro], dtype=float).reshape(-1, 3),
+            "vel": None if any(v is None for v in vels) else np.array(vels, dtype=float).reshape(-1, 3),
+            "ids": [a.atomid for a in gro], "names": [a.name for a in gro],
+            "resnames": [r.resname for r in mol.residues], "resids": [r.resid for r in mol.residues],
+            "atom_resnames": [a.resname for a in gro], "atom_resids": [a.resid for a in gro],
+            "sizes": [len(r) for r in mol.residues], "top": top, "top_name": mol.molecule_top.name, "n": len(gro)}
+
+
+LABEL_KEYS = ("n", "ids", "names", "resnames", "resids", "atom_resnames", "atom_resids", "sizes", "top", "top_name")
+
+
+def label_diff(a, b):
+    """names of the label fields (everything but coordinates) in which two snapshots differ"""
+    return [k for k in LABEL_KEYS if a[k] != b[k]]
 
 
 def same_snapshot(a, b):
-    if a["n"] != b["n"] or a["ids"] != b["ids"] or a["names"] != b["names"] or a["resnames"] != b["resnames"] \
-            or a["resids"] != b["resids"] or a["atom_resnames"] != b["atom_resnames"]:
+    if label_diff(a, b):
         return False
     if not bits_equal(a["pos"], b["pos"]):
         return False
     if (a["vel"] is None) != (b["vel"] is None):
         return False
     return a["vel"] is None or bits_equal(a["vel"], b["vel"])
+
+
+def unusable(mol):
+    """None when the Molecule can still be iterated, indexed and copied; else the error"""
+    try:
+        atoms = list(mol)
+        if atoms:
+            mol[len(atoms) - 1]
+        mol.copy()
+        return None
+    except Exception as ex:     # noqa
+        return "%s: %s" % (type(ex).__name__, str(ex).splitlines()[0][:120])
+
+
+def modified_msg(what, mol, snap):
+    """None when the Molecule `mol` is bit for bit its snapshot and still usable, else what changed"""
+    now = snapshot(mol)
+    parts = []
+    ld = label_diff(now, snap)
+    if ld:
+        k = ld[0]
+        ch = [(o, n) for o, n in zip(snap[k], now[k]) if o != n][:2] if isinstance(snap[k], list) else [(snap[k], now[k])]
+        parts.append("fields %s changed, e.g. %s: %s" % (ld, k, ch))
+    elif not same_snapshot(now, snap):
+        parts.append("coordinates / velocities changed (max |dx| = %.3g nm)" %
+                     (float(np.abs(now["pos"] - snap["pos"]).max()) if now["pos"].shape == snap["pos"].shape else float("nan")))
+    u = unusable(mol)
+    if u:
+        parts.append("the object can no longer be iterated / copied (%s)" % u)
+    return ("%s was modified: %s" % (what, "; ".join(parts))) if parts else None
+
+
+def pos_digest(*arrays):
+    """bit pattern of coordinate arrays as a short string (outcomes travel from the session processes through a pipe:
+    the full coordinate lists of the shipped DNA pair overflow its buffer)"""
+    import hashlib
+    h = hashlib.sha256()
+    for a in arrays:
+        a = np.ascontiguousarray(a, dtype=float)
+        h.update(repr(a.shape).encode())
+        h.update(a.tobytes())
+    return h.hexdigest()
 
 
 def bits_equal(a, b):
@@ -270,6 +325,84 @@ def gen_case(rs, sizes=None, mobile_tree=None, force_atom_moves=False):
         if len(set(a[1] for a in start["atoms"])) != len(set(a[1] for a in end["atoms"])) and rs.randint(0, 4):
             case["restr"] = []
     return case
+
+
+TAG_BASES = ["DC", "DG", "DA", "DT", "ALA", "SER", "LYS", "GLY", "U", "RA"]
+
+
+def tagged(rs, base):
+    """a residue name that contains `base` (terminal / protonation tags as in DC5, DC3, NALA, LYSH), at most 5 characters"""
+    k = rs.randint(0, 4)
+    t = base + str(rs.choice(["5", "3", "N", "H"])) if k < 2 else (str(rs.choice(["N", "C", "5"])) + base if k == 2 else
+                                                               base + str(rs.choice(["5T", "3T", "P"])))
+    return t[:5] if len(t) <= 5 else base + "5"
+
+
+def gen_tagged_case(rs, identical=False):
+    """multi-residue pair aligned with restrictions=None and the automatic restraint guess: same number of residues,
+    residue names pairwise equal or differing by CONTAINMENT (the 'similar names' branch of guess_protein_restrains, as
+    in the shipped DNA_AA (DC5 ...) / DNA_CG (DC ...) pair); tags on either molecule"""
+    nres = int(rs.randint(2, 5))
+    per_s = [int(rs.randint(1, 5)) for _ in range(nres)]
+    per_e = [int(rs.randint(1, 7)) for _ in range(nres)]
+    if rs.randint(2):
+        per_s, per_e = per_e, per_s
+    bases = [str(x) for x in rs.choice(TAG_BASES, size=nres, replace=False)]
+    names_s, names_e = list(bases), list(bases)
+    if not identical:
+        for r in range(nres):
+            k = rs.randint(0, 4)
+            if k == 0:
+                names_s[r] = tagged(rs, bases[r])
+            elif k == 1:
+                names_e[r] = tagged(rs, bases[r])
+        if names_s == names_e:
+            # guarantee at least one tagged residue
+            r = int(rs.randint(nres))
+            names_s, names_e = list(bases), list(bases)
+            (names_e if rs.randint(2) else names_s)[r] = tagged(rs, bases[r])
+
+    def mol(per, names):
+        n = sum(per)
+        spec = gen_molspec(rs, n, "tree", 1, vel=bool(rs.randint(2)))
+        k = 0
+        for r, m in enumerate(per):
+            for _ in range(m):
+                spec["atoms"][k][1], spec["atoms"][k][2] = names[r], r + 1
+                k += 1
+        if all(is_h(a[0]) for a in spec["atoms"]):
+            spec["atoms"][0][0] = "C0"
+        return spec
+    start, end = mol(per_s, names_s), mol(per_e, names_e)
+    case = {"kind": "pair", "start": start, "end": end, "tagged_residues": not identical}
+    case.update(gen_options(rs, len(start["atoms"]), len(end["atoms"])))
+    case["restr"], case["autog"] = None, True
+    case["sf"] = min(case["sf"], 10)
+    return case
+
+
+def dna_case(seed=1, deform=None):
+    """the shipped DNA pair (232 beads on 1142 atoms, 36 residues, DC5/DC3-tagged terminal residues in the atomistic
+    topology): S only (the restraints-only measure over ~7000 guessed pairs is too slow for the Coq side of K)"""
+    return {"kind": "pair", "start": {"shipped": ["DNA_map.gro", "DNA_CG.itp"]}, "end": {"shipped": ["DNA_AA.gro", "DNA_AA.itp"]},
+            "restr": None, "deform": deform, "ign": True, "autog": True, "sf": 1, "seed": seed, "tagged_residues": True}
+
+
+def tagged_witness_cases():
+    """seeded/C06-10/demo.py: CG 2 residues x 2 beads (DC, DG) on AA 2 residues x 4 atoms, once (DC, DG) and once the
+    tagged (DC5, DG), restrictions=None, defaults, STEPS_FACTOR 30, seed 3"""
+    rng = np.random.RandomState(5)
+    cg_pos = np.array([[1.0, 1.0, 1.0], [1.3, 1.1, 1.0], [1.6, 1.0, 1.1], [1.9, 1.1, 1.0]])
+    aa_pos = np.repeat(cg_pos, 2, axis=0) + rng.normal(0, 0.05, (8, 3)) + 2.
+    out = []
+    for first in ("DC", "DC5"):
+        start = {"atoms": [["B1", "DC", 1], ["B2", "DC", 1], ["B1", "DG", 2], ["B2", "DG", 2]], "pos": cg_pos.tolist(),
+                 "bonds": [[0, 1], [1, 2], [2, 3]]}
+        end = {"atoms": [[n, first, 1] for n in ("C1", "N1", "C2", "O2")] + [[n, "DG", 2] for n in ("C1", "N1", "C2", "O2")],
+               "pos": aa_pos.tolist(), "bonds": [[0, 1], [1, 2], [1, 3], [3, 4], [4, 5], [5, 6], [5, 7]]}
+        out.append({"kind": "pair", "start": start, "end": end, "restr": None, "deform": None, "ign": True, "autog": True,
+                    "sf": 30, "seed": 3, "tagged_residues": first != "DC"})
+    return out
 
 
 SHIPPED = [
@@ -860,8 +993,11 @@ def judge(case, before_s, before_e, adj_s, adj_e, after_s, after_e, nan_trials):
     ns, ne = before_s["n"], before_e["n"]
     # order, count and names
     for tag, b, a in (("start", before_s, after_s), ("end", before_e, after_e)):
-        if a["n"] != b["n"] or a["names"] != b["names"] or a["ids"] != b["ids"] or a["atom_resnames"] != b["atom_resnames"]:
-            bad.append("atom order / names of the %s molecule changed" % tag)
+        ld = label_diff(a, b)
+        if ld:
+            k = ld[0]
+            ch = [(o, n) for o, n in zip(b[k], a[k]) if o != n][:2] if isinstance(b[k], list) else [(b[k], a[k])]
+            bad.append("atom order / names of the %s molecule of the Alignment changed: fields %s, e.g. %s: %s" % (tag, ld, k, ch))
     if bad:
         return bad
     if not (np.isfinite(after_s["pos"]).all() and np.isfinite(after_e["pos"]).all()):
@@ -919,11 +1055,13 @@ def oracle_case(case, repeat=True):
         return [], None
     ali, err = run_plain(start, end, case)
     bad = []
-    # the caller's objects are never modified (also when the call raises)
-    if not same_snapshot(snapshot(start), before_s):
-        bad.append("the start Molecule supplied by the caller was modified")
-    if not same_snapshot(snapshot(end), before_e):
-        bad.append("the end Molecule supplied by the caller was modified")
+    # the caller's objects are never modified (also when the call raises): both halves (topology and coordinates)
+    # bit for bit, and the objects still usable
+    for what, mol, snap in (("the start Molecule supplied by the caller", start, before_s),
+                            ("the end Molecule supplied by the caller", end, before_e)):
+        m = modified_msg(what, mol, snap)
+        if m:
+            bad.append(m)
     if err is not None:
         if isinstance(err, RunAway):
             return bad, {"runaway": True}
@@ -936,11 +1074,14 @@ def oracle_case(case, repeat=True):
         return bad, None
     after_s, after_e = snapshot(ali.start), snapshot(ali.end)
     nan_trials = run_plain.nan_trials
+    for tag, mol in (("start", ali.start), ("end", ali.end)):
+        u = unusable(mol)
+        if u:
+            bad.append("the %s molecule of the Alignment can no longer be iterated / copied (%s)" % (tag, u))
     bad += judge(case, before_s, before_e, adj_s, adj_e, after_s, after_e, nan_trials)
     if bad:
         return bad, None
-    outcome = {"start": [x.hex() for x in after_s["pos"].ravel()], "end": [x.hex() for x in after_e["pos"].ravel()],
-               "nan_trials": int(nan_trials)}
+    outcome = {"digest": pos_digest(after_s["pos"], after_e["pos"]), "nan_trials": int(nan_trials)}
     # bit-identical when repeated with the same seed
     if repeat:
         ali2, err2 = run_plain(start, end, case)
@@ -976,10 +1117,9 @@ def run_reuse_once(case, judge_it=True):
 
     def callers_untouched(after):
         for what, mol, snap in handed:
-            if not same_snapshot(snapshot(mol), snap):
-                bad.append("%s was modified (found after %s; max |dx| = %.3g nm)" %
-                           (what, after, float(np.abs(np.array(mol.atoms_positions) - snap["pos"]).max())
-                            if len(mol) == snap["n"] else float("nan")))
+            m = modified_msg(what, mol, snap)
+            if m:
+                bad.append("%s (found after %s)" % (m, after))
     callers_untouched("construction")
     for k, op in enumerate(case["ops"]):
         if bad:
@@ -991,6 +1131,10 @@ def run_reuse_once(case, judge_it=True):
             setattr(ali, which, mol)
             callers_untouched("the assignment #%d" % k)
             continue
+        u = unusable(ali.start) or unusable(ali.end)
+        if u:
+            bad.append("a molecule of the Alignment can no longer be iterated / copied before operation #%d (%s)" % (k, u))
+            break
         if not in_domain(op, ali.start, ali.end):
             outcomes.append(None)
             continue
@@ -1010,7 +1154,7 @@ def run_reuse_once(case, judge_it=True):
         if judge_it:
             bad += ["align_molecules #%d: %s" % (k, b) for b in
                     judge(op, before_s, before_e, adj_s, adj_e, after_s, after_e, run_plain.nan_trials)]
-        outcomes.append({"start": [x.hex() for x in after_s["pos"].ravel()], "end": [x.hex() for x in after_e["pos"].ravel()]})
+        outcomes.append({"digest": pos_digest(after_s["pos"], after_e["pos"])})
     return bad, outcomes
 
 
@@ -1046,7 +1190,9 @@ def gen_reuse_case(rs, base=None):
         o = gen_options(rs, ns, ne)
         o["op"] = "align"
         o["sf"] = min(o["sf"], 8)
-        if o["restr"] is None and len(set(a[1] for a in c["start"].get("atoms", []))) > 1:
+        if c.get("tagged_residues") is not None:
+            o["restr"], o["autog"] = None, True         # keep the automatic restraint guess
+        elif o["restr"] is None and len(set(a[1] for a in c["start"].get("atoms", []))) > 1:
             o["restr"] = []
         return o
 
@@ -1204,6 +1350,11 @@ def corpus(ctx):
     S["corpus"] = len(cases)
     S["corpus_nan_trials"] = 0
     cases.append(reuse_witness_case())
+    cases.extend(tagged_witness_cases())        # seeded/C06-10 witness: residue names differing by containment
+    cases.append(dna_case(seed=1))              # shipped DNA pair (DC5 ... / DC ...)
+    rs = np.random.RandomState(608)
+    for _ in range(3):
+        cases.append(gen_tagged_case(rs))
     rs = np.random.RandomState(607)
     for sizes in ((3, 7), (6, 6), (8, 4)):
         cases.append(gen_reuse_case(rs, base=gen_case(rs, sizes=sizes, mobile_tree=True)))
@@ -1246,6 +1397,8 @@ def gen_K_cases(ctx, rs):
         cases.append(gen_degenerate_case(rs, sf_range=(6, 13)))
     for _ in range(ctx.n(6, 50)):
         cases.append(gen_reuse_case(rs))
+    for k in range(ctx.n(10, 80)):
+        cases.append(gen_tagged_case(rs, identical=(k % 5 == 4)))
     return cases
 
 
@@ -1260,7 +1413,8 @@ def correspondence(ctx):
     terms, meta, proto = [], [], []
     hist = {"tie": 0, "start_mobile": 0, "end_mobile": 0, "no_optimiser_call": 0, "error": 0, "passes": 0,
             "accepted": 0, "kind0": 0, "kind1": 0, "kind2": 0, "hydrogens_filtered": 0, "restrained": 0, "shipped": 0,
-            "mobile_cyclic": 0, "runaway_skipped": 0, "degenerate": 0, "nan_trials_rejected": 0, "reused_objects": 0}
+            "mobile_cyclic": 0, "runaway_skipped": 0, "degenerate": 0, "nan_trials_rejected": 0, "reused_objects": 0, "tagged_residue_names": 0,
+            "guessed_restraints": 0}
     sizes = {}
     t0 = time.time()
     flat = []
@@ -1294,6 +1448,10 @@ def correspondence(ctx):
             hist["shipped"] += 1
         if c.get("degenerate"):
             hist["degenerate"] += 1
+        if c.get("tagged_residues"):
+            hist["tagged_residue_names"] += 1
+        if c.get("restr") is None and rec.args is not None and rec.args["restr"]:
+            hist["guessed_restraints"] += 1
         if obs["err"] is not None:
             hist["error"] += 1
         elif rec.args is None:
@@ -1392,13 +1550,23 @@ def oracle(ctx, scale):
     n_deg = ctx.n(10, 60) * scale
     for _ in range(n_deg):          # degenerate mobile molecules, single-atom moves enabled
         sessions.append({"kind": "session", "cases": [gen_degenerate_case(rs) for _ in range(int(rs.randint(3, 7)))]})
+    n_tag = ctx.n(8, 50) * scale
+    for k in range(n_tag):          # multi-residue pairs, automatic restraint guess, residue names differing by containment
+        cs = [gen_tagged_case(rs, identical=(rs.randint(0, 5) == 0)) for _ in range(int(rs.randint(3, 7)))]
+        if k % 4 == 0:
+            cs.insert(int(rs.randint(len(cs) + 1)), dna_case(seed=int(rs.randint(0, 2 ** 31 - 1)),
+                                                             deform=[None, [0, 1], [0, 1, 2]][int(rs.randint(3))]))
+        if k % 4 == 1:              # the same on a re-used object
+            cs.append(gen_reuse_case(rs, base=gen_tagged_case(rs)))
+        sessions.append({"kind": "session", "cases": cs})
     n_reuse = ctx.n(12, 80) * scale
     for _ in range(n_reuse):        # one Alignment object re-used: re-assignments and several alignments in a row
         cs = [gen_reuse_case(rs) for _ in range(int(rs.randint(1, 4)))]
         if rs.randint(2):
             cs.insert(int(rs.randint(len(cs) + 1)), gen_case(rs))
         sessions.append({"kind": "session", "cases": cs})
-    hist = {"tie": 0, "start_mobile": 0, "end_mobile": 0, "degenerate": 0, "reused_objects": 0, "reassignments": 0}
+    hist = {"tie": 0, "start_mobile": 0, "end_mobile": 0, "degenerate": 0, "reused_objects": 0, "reassignments": 0,
+            "tagged_residue_names": 0, "shipped_dna": 0}
     for s in sessions:
         for c in s["cases"]:
             ns = len(c["start"].get("atoms", [])) or 0
@@ -1407,6 +1575,10 @@ def oracle(ctx, scale):
                 hist["tie" if ns == ne else ("start_mobile" if ns < ne else "end_mobile")] += 1
             if c.get("degenerate"):
                 hist["degenerate"] += 1
+            if c.get("tagged_residues"):
+                hist["tagged_residue_names"] += 1
+            if "DNA_AA.gro" in c["end"].get("shipped", []):
+                hist["shipped_dna"] += 1
             if c.get("kind") == "reuse":
                 hist["reused_objects"] += 1
                 hist["reassignments"] += sum(1 for o in c["ops"] if o["op"] != "align")
